@@ -1,5 +1,6 @@
 pub mod c01;
 pub mod c02;
+pub mod c04;
 pub mod c06;
 pub mod opt_common;
 pub mod c09;
@@ -18,6 +19,7 @@ pub fn dispatch(ctx: &mut Ctx) -> bool {
     match ctx.prop.as_str() {
         "C01" => c01::run(ctx),
         "C02" => c02::run(ctx),
+        "C04" => c04::run(ctx),
         "C06" => c06::run(ctx),
         "C09" => c09::run(ctx),
         "C10" => c10::run(ctx),
